@@ -1301,6 +1301,125 @@ def stage_final_registered(ctx, w):
                        {'kind': 'final_registered', 'class': 'final_not_registered', 'text': text, 'host': 'web'})
 
 
+NONE_REAL = {   # a real (ssh-valid) value per option that accepts the keyword "none"
+    'BindAddress': '10.1.1.1', 'CASignatureAlgorithms': 'ssh-ed25519', 'Ciphers': 'aes128-ctr',
+    'HostKeyAlgorithms': 'ssh-ed25519', 'HostKeyAlias': 'al', 'IdentityAgent': '/tmp/agent.sock',
+    'KexAlgorithms': 'curve25519-sha256', 'MACs': 'hmac-sha2-256', 'PKCS11Provider': '/usr/lib/p11.so',
+    'PreferredAuthentications': 'publickey', 'ProxyCommand': 'nc gw 22', 'ProxyJump': 'bastion.example.com',
+    'RemoteCommand': 'uptime', 'Tag': 'tg', 'User': 'bob', 'CanonicalDomains': 'example.com',
+    'CanonicalizePermittedCNAMEs': '*.a.example.com:*.b.example.com', 'GlobalKnownHostsFile': '/kh/g',
+    'SetEnv': 'FOO=bar', 'UserKnownHostsFile': '/kh/u', 'AuthorizedKeysFile': '/keys/ak',
+}
+NONE_SHAPES = ['same_file', 'host_block', 'match_block', 'include_later', 'include_first', 'second_file']
+
+
+def none_first_program(w, client, name, shape, none_word, real, target):
+    """files in which the first applicable line for `name` says "none" and a later applicable line gives a real
+    value; returns (paths with both lines, paths with the "none" line only, all files)"""
+    d, rel = w.case_dir()
+    first = '%s %s' % (name, none_word)
+    later = '%s %s' % (name, real)
+    inc = os.path.join(d, 'inc')
+    files = {}
+
+    def build(with_later):
+        lt = later if with_later else '# removed'
+        tag = 'b' if with_later else 'n'
+        main = os.path.join(d, 'main_' + tag)
+        inc_t = os.path.join(d, 'inc_' + tag)
+        second = os.path.join(d, 'second_' + tag)
+        paths = [main]
+        if shape == 'same_file':
+            files[main] = first + '\nCompression yes\n' + lt + '\n'
+        elif shape == 'host_block':
+            if client:
+                files[main] = 'Host %s\n  %s\nHost *\n  %s\n' % (target, first, lt)
+            else:
+                files[main] = 'Match user %s\n  %s\nMatch all\n  %s\n' % (target, first, lt)
+        elif shape == 'match_block':
+            files[main] = first + '\nMatch %s *\n  %s\n' % ('host' if client else 'user', lt)
+        elif shape == 'include_later':
+            files[main] = first + '\nInclude ' + inc_t + '\n'
+            files[inc_t] = lt + '\n'
+        elif shape == 'include_first':
+            files[main] = 'Include ' + inc_t + '\n' + lt + '\n'
+            files[inc_t] = first + '\n'
+        else:
+            files[main] = first + '\n'
+            files[second] = lt + '\n'
+            paths = [main, second]
+        return paths
+    both, only = build(True), build(False)
+    for q, t in files.items():
+        w.write(q, t)
+    return both, only, files
+
+
+def stage_none_first(ctx, w):
+    """first value wins also when the first value is the keyword "none": a later applicable line (same file, later
+    Host block, Match block, included file, second file of a path list) must not replace it.  Checked on asyncssh
+    itself (result = result without the later line, and the option is "none"/empty) and, where ssh accepts the
+    option, against ssh -G (which prints the same with and without the later line)."""
+    rng = ctx.rng
+    have_ssh = os.access(SSH, os.X_OK)
+    words = ['none', 'None', 'NONE', 'nOnE']
+    checked = ssh_checked = 0
+    for client in (True, False):
+        ks = kinds(client)
+        names = [n for n in option_names(client) if ks[n] in ('KString', 'KStringList') and n in NONE_REAL]
+        for name in names:
+            shapes = NONE_SHAPES if ctx.tier == 'thorough' else rng.sample(NONE_SHAPES, 3)
+            for shape in shapes:
+                word = rng.choice(words)
+                target = 'internal-1' if client else 'alice'
+                both, only, files = none_first_program(w, client, name, shape, word, NONE_REAL[name], target)
+
+                def run(paths):
+                    if client:
+                        return load_client(paths, target)[0]
+                    return load_server(paths, target, 'h', '1.2.3.4')[0]
+                r_both, r_only = run(both), run(only)
+                checked += 1
+                ctx.note_case(('none_first', client, name, shape, word), nontrivial=True)
+                problems = []
+                want = None if ks[name] == 'KString' else []
+                if r_both[0] != 'ok':
+                    problems.append(f'load fails with {r_both[1]}')
+                else:
+                    got = r_both[1].get(name, SENT)
+                    if got is SENT or got != want:
+                        problems.append(f'{name} resolves to {"<unset>" if got is SENT else repr(got)}, not to '
+                                        f'{want!r} (the first value, "{word}")')
+                    if canon_result(r_both) != canon_result(r_only):
+                        problems.append(f'the later line changes the result: {canon_result(r_only)!r} without it, '
+                                        f'{canon_result(r_both)!r} with it')
+                ssh_note = ''
+                if have_ssh and client and shape != 'second_file':
+                    o_both, _ = ssh_G(both[0], target, (), ())
+                    o_only, _ = ssh_G(only[0], target, (), ())
+                    if o_both is not None and o_only is not None:
+                        ssh_checked += 1
+                        key = name.lower()
+                        if o_both == o_only:
+                            ssh_note = f'; ssh -G prints the same with and without the later line ({key} {o_both.get(key, ["<not printed>"])!r})'
+                        else:
+                            # ssh lets the later line count for this option: no claim against asyncssh from ssh here
+                            ctx.count('none_first.ssh_later_line_counts.' + name)
+                            if problems and not any('load fails' in x for x in problems):
+                                continue
+                if problems:
+                    ctx.count('none_first_differs', group='oracle')
+                    report(ctx, 'none_first',
+                           f'first value "none" does not win ({"client" if client else "server"} option {name}, shape {shape}): '
+                           + '; '.join(problems) + ssh_note + f'; files {rel_files(w, files)!r}',
+                           {'kind': 'none_first', 'class': 'none_first', 'client': client, 'option': name, 'shape': shape,
+                            'word': word, 'target': target})
+    ctx.count('none_first.checked', checked)
+    ctx.count('none_first.checked_against_ssh', ssh_checked)
+    if checked < 30:
+        ctx.broke('vacuity:none_first', f'only {checked} cases')
+
+
 def stage_connect_target(ctx, w):
     """what asyncssh.connect() finally targets (host, port handed to the transport; user name and options in force)
     for an alias block + "Match final" program, against what ssh -G resolves for the same file.  The programs are
@@ -1839,7 +1958,7 @@ def run(ctx):
     try:
         client_keep = []
         for st in (stage_tables, stage_units, stage_client_configs, stage_server_configs, stage_two_pass, stage_users,
-                   stage_firstwins_oracle, stage_final_registered, stage_connect_target, stage_include_oracle, stage_purity_oracle, stage_ssh_oracle,
+                   stage_firstwins_oracle, stage_none_first, stage_final_registered, stage_connect_target, stage_include_oracle, stage_purity_oracle, stage_ssh_oracle,
                    stage_multipath_oracle, stage_expansion_oracle):
             if st is stage_tables or st is stage_units:
                 st(ctx)
@@ -1928,6 +2047,17 @@ def replay(rp):
                 if got != v and k != 'Port':
                     return 1
             return 0
+        if kind == 'none_first':
+            client, name = rp['client'], rp['option']
+            both, only, files = none_first_program(w, client, name, rp['shape'], rp['word'], NONE_REAL[name], rp['target'])
+            run1 = (lambda ps: load_client(ps, rp['target'])[0]) if client else (lambda ps: load_server(ps, rp['target'], 'h', '1.2.3.4')[0])
+            a, b = run1(both), run1(only)
+            print('files:', rel_files(w, files))
+            print('with the later line   :', canon_result(a))
+            print('without the later line:', canon_result(b))
+            want = None if kinds(client)[name] == 'KString' else []
+            bad = a[0] != 'ok' or canon_result(a) != canon_result(b) or a[1].get(name, SENT) != want
+            return 1 if bad else 0
         if kind == 'connect_target':
             d, _ = w.case_dir()
             q = os.path.join(d, 'cfg')
